@@ -35,6 +35,7 @@ func run(c *vf.Ctx) {
 	ipv6(c)
 	ports(c)
 	hashes(c)
+	rangeBoundaries(c)
 }
 
 func selfTest(c *vf.Ctx) {
